@@ -111,3 +111,19 @@ Definition array0_index (safe : bool) : bool := if safe then negb (0 =? 0) else 
     expected<T, E>::operator->(): no check either — returns get_if<0>(&_u), null when *this holds an error *)
 Definition opt_arrow (engaged : bool) : bool := true.
 Definition exp_arrow (has_value : bool) : bool := true.
+
+(** which check fires — for the functions that evaluate two checks in sequence: 0 = none (the call is let through),
+    1 = the first TETL_PRECONDITION of the function body, 2 = the second.  The failing location handed to the handler
+    (file, line, expression text) is compared with this in the correspondence run. *)
+Definition static_set_ctor_site (cap d : Z) : nat :=
+  if d >=? 0 then (if u64 d <=? cap then O else 2%nat) else 1%nat.
+Definition copy_ptrs_site (dest_nonnull src_nonnull : bool) : nat :=
+  if dest_nonnull then (if src_nonnull then O else 2%nat) else 1%nat.
+Definition linalg_add_site (x y z : list Z) : nat :=
+  if extents_eq x y then (if extents_eq x z then O else 2%nat) else 1%nat.
+Definition linalg_mvp_site (a0 a1 x0 y0 : Z) : nat :=
+  if a1 =? x0 then (if a0 =? y0 then O else 2%nat) else 1%nat.
+Definition bitset_str_site (str : list Z) (pos n zero one : Z) : nat :=
+  if u64 pos <=? zlen str then (if bitset_str_guard str pos n zero one then O else 2%nat) else 1%nat.
+Definition span_subspan_site (n off c : Z) : nat :=
+  if u64 off <=? n then (if span_subspan n off c then O else 2%nat) else 1%nat.
